@@ -141,9 +141,9 @@ def rand_test(rng, ctx):
     if r < 0.2:
         return ['false']
     if r < 0.5:
-        return ['num', rand_operand(rng, ctx), rng.choice('<>='), rand_operand(rng, ctx)]
+        return ['num', rand_operand(rng, ctx), rng.choice('<>='), rand_operand(rng, ctx), rng.choice(['relax', 'relax', 'space'])]
     if r < 0.6:
-        return ['odd', rand_operand(rng, ctx)]
+        return ['odd', rand_operand(rng, ctx), rng.choice(['relax', 'relax', 'space'])]
     if r < 0.7:
         a, b = rng.choice(DIMS), rng.choice(DIMS)
         # exact ties between different units are a float question (C05); keep clear of them here
@@ -186,6 +186,16 @@ def rand_node(rng, depth, ctx, params=0):
     if depth > 0 and r < 0.62 and ctx['macs']:
         name, np = rng.choice(ctx['macs'])
         return ['call', name, None, [rand_nodes(rng, depth - 1, ctx, n=rng.randint(0, 2), params=params) for _ in range(np)], None]
+    if depth > 1 and r < 0.66:
+        # a macro defined locally in a group and tested with \ifdefined one or two groups deeper, and again after the group
+        x = 70 + ctx.setdefault('nlocal', 0)
+        ctx['nlocal'] += 1
+        inner = ['cond', ['defined', x], rand_nodes(rng, depth - 2, ctx, n=1, params=params), rand_nodes(rng, depth - 2, ctx, n=1, params=params)]
+        if rng.random() < 0.5:
+            inner = ['group', [inner], 'brace']
+        ctx['w'] += 1
+        return ['group', [['def', False, x, 0, None, [['word', ctx['w']]], {'kind': 'def'}], ['group', [inner], rng.choice(['brace', 'begingroup'])],
+                          ['cond', ['defined', x], rand_nodes(rng, 0, ctx, n=1, params=params), None]], 'brace']
     if r < 0.72:
         c = rng.randint(0, ctx['ncnt'] - 1)
         return rng.choice([['step', c], ['addc', c, rng.randint(-2, 3)], ['setc', c, rng.randint(-1, 5)]])
@@ -203,9 +213,9 @@ def rand_prog(rng, depth):
     # macro definitions first (top level only), bodies may contain conditionals and parameters
     for i in range(rng.randint(0, 3)):
         np = rng.randint(0, 2)
-        if rng.random() < 0.25:
-            ctx['w'] += 1
-            body = [['word', ctx['w']]] if rng.random() < 0.6 else [['word', 1]]
+        if rng.random() < 0.3:
+            # plain-text bodies for \ifx: prefixes of one fixed word sequence (equal iff equally long; the empty body included)
+            body = [['word', 900 + k] for k in range(rng.choice([0, 1, 1, 2, 2, 3]))]
             np = 0
             ctx['plain'].append(i)
         else:
